@@ -750,7 +750,12 @@ func (c *Ctx) Extract(a *Term, hi, lo int) *Term {
 			return c.bin(a.K, c.Extract(a.Args[0], hi, lo), c.Extract(a.Args[1], hi, lo))
 		}
 	case KAdd, KSub, KMul:
-		// low bits of modular arithmetic only depend on low bits
+		// low bits of modular arithmetic only depend on low bits. For products
+		// of two non-constants the wide product is kept (one product term is
+		// much easier for the integer translation than two of different widths).
+		if a.K == KMul && a.Args[0].K != KConst && a.Args[1].K != KConst {
+			break
+		}
 		if lo == 0 && (a.Args[0].K == KZExt || a.Args[1].K == KZExt || a.Args[0].K == KConst || a.Args[1].K == KConst) {
 			x, y := c.Extract(a.Args[0], hi, 0), c.Extract(a.Args[1], hi, 0)
 			return c.bin(a.K, x, y)
